@@ -67,6 +67,19 @@ Proof.
 Qed.
 Print Assumptions C13_before_fix_refuted.
 
+(** Before the repair b31ad3a (index/builder.go: Finish removes a left-over sidecar without shard before installing a
+    shard under its name) a delta build in a directory with such an orphan sidecar had its NEW shard read through it: the
+    modified file's new version is hidden by the stale tombstone — the branch finds nothing at the path.  The current code
+    is [delta_build] = [delta_build_adopting []] (the harness plants orphan sidecars in 15% of the runs). *)
+Theorem C13_orphan_sidecar_before_fix_refuted : exists nb s0 s1 t b p,
+  b < nb /\ view (st_stack (delta_build_adopting t nb (full_build nb s0) s1)) b p = [] /\ head_view s1 b p = [8%N].
+Proof.
+  exists 1, [[(1, 7)]]%N, [[(1, 8)]]%N, [1%N], 0, 1%N. split; [lia|]. vm_compute. split; reflexivity.
+Qed.
+Print Assumptions C13_orphan_sidecar_before_fix_refuted.
+Lemma C13_delta_build_adopts_nothing : forall nb st cur, delta_build nb st cur = delta_build_adopting [] nb st cur.
+Proof. reflexivity. Qed.
+
 (** ---- non-vacuity: a concrete history (2 branches; modify on one branch while the other keeps the old blob; delete;
     pure addition of a blob that another branch already has; revert) — the computed stack and the per-branch views. *)
 Example C13_nonvacuous :
